@@ -392,6 +392,16 @@ func main() {
 				harnessErr = err.Error()
 				break
 			}
+			// raw protocol: on half of the connections the script is written by the harness's own encoder of the
+			// documented layout rather than by the protocol code under test
+			if p.Name == "raw" && r.Intn(2) == 0 {
+				for i := range specs {
+					if rb, ok := wire.RawEncode(specs[i]); ok && i < len(bs) {
+						bs[i] = rb
+					}
+				}
+				core.Add("connections_scripted_with_the_reference_encoder", 1)
+			}
 			cr.bytes = bs
 			runs = append(runs, cr)
 		}
@@ -450,6 +460,16 @@ func main() {
 		for _, cr := range runs {
 			got, eof := cr.conn.Received()
 			replies, perr := rawpeer.Parse(p, got)
+			if p.Name == "raw" {
+				// what the peer wrote is read by the harness's own decoder of the documented layout (no filter pipes in these scripts)
+				refs, rest, derr := wire.RawDecode(got)
+				core.Add("reply_streams_read_with_the_reference_decoder", 1)
+				if derr != nil || len(rest) != 0 {
+					perr = fmt.Errorf("reference decoder: %v (%d trailing bytes)", derr, len(rest))
+				} else {
+					replies = refs
+				}
+			}
 			if perr != nil {
 				viols = append(viols, viol{"garbled-output", "-", fmt.Sprintf("conn %d: bytes written by the peer do not parse as frames: %v", cr.ci, perr), cr.ci})
 			}
